@@ -82,6 +82,10 @@ CLAIMED = {
             'The four unit tables (time, size, bandwidth, speed: 145 cells) are rebuilt from the source of the tuples and of the generator constructor, not from a run, and compared with the SI/IEC reference; every path of xbt_parse_get_value_with_unit is enumerated: the out-of-range, no-digits and unknown-unit paths throw and the returning paths return the unmodified strtod result times the table entry of the text after the number (default unit when empty); each wrapper passes its own table and a default unit worth 1. This covers every unit and prefix at once, where the examples use a handful.',
             'strtod and unordered_map::emplace/find are trusted (emplace keeps the first value: duplicates must agree, checked); locale is assumed C; the reference table is embedded in the checker and listed in the evidence assumptions.',
             'DESIGN.md §3 C27'),
+    'C01': ('whole-library call graph (class-hierarchy resolution, lambdas, std::function/signal pseudo-nodes) + container-type classification: reachability from every address-ordered traversal to order-observable effects; declaration rule on heap comparators; container discipline on the run queues; who-may-call on ambient nondeterminism sources',
+            'Over all 350 library units (9300 functions): every range-for, begin()/top() access or algorithm call over a container whose iteration order is a function of addresses (std::set/map keyed by raw or smart pointers with the default comparator, unordered containers keyed by pointers, heaps ordering pointer-carrying pairs generically), including orders copied into a local sequence that is traversed later, is located in the S4U core (src/kernel, src/s4u, src/xbt and their headers) and its loop body must not reach, in the call graph, a function that makes the order observable (run-queue insertion, simcall answer, signals, user callbacks, timers, action heap, LMM variable creation/expansion, resource events, activity finish/cancel/suspend/resume, actor kill, logging). Every heap declared in that scope must break ties without addresses; the run queues are only appended/swapped/cleared and simcalls handled by one forward loop; no wall-clock/random/pid source is called outside an enumerated list. A rule on code shape holds for every program and every address-space layout, which running a scenario once cannot show.',
+            'Calls through std::function/signals/function pointers are unknown user code (treated as observable); implicit destructor calls are not in the call graph; a user-defined comparator or operator< that itself compares pointers is not recognised; plugins, DAG loaders, SMPI and tracing are analysed as callees only (their own traversals are listed as notes, not decided); floating-point reproducibility is not decided.',
+            'DESIGN.md §3 C01'),
 }
 
 NOT_APPLICABLE = {
